@@ -59,9 +59,10 @@ def Record.toLoc (r : Record) : Loc :=
 
 /-- `checker.add(record)` for a parsed record.  `_CoordinateKey.__init__` reads the
     chromosome (KeyError when the column is missing), looks it up in the contig
-    list (ValueError), and only then reads the positions (KeyError): a record that
+    list (ValueError), and only then reads the positions (KeyError when a position
+    column is missing or holds a text that is not a number): a record that
     cannot be keyed is skipped, but a chromosome missing from the contig list is
-    reported even when a position column is missing too. -/
+    reported even when a position column is missing (or unreadable) too. -/
 def Checker.addRecord (c : Checker) (rec : Record) : Except PyErr Checker :=
   let loc := rec.toLoc
   if !c.order.sortable || loc.hasCoords then c.add loc
